@@ -2289,6 +2289,11 @@ impl VtCtx {
         let child = Span::enter_with_parent("fill-child", &root);
         self.w().spans[idx] = Slot::Live(root);
         self.finish_idx(idx);
+        {
+            let mut w = self.w();
+            let t = w.tick();
+            w.h.bulk_atts.push((idx, n, t));
+        }
         NO_YIELD.with(|x| x.set(true));
         for _ in 0..n {
             LAST_FREE.with(|f| f.set(usize::MAX));
